@@ -271,6 +271,42 @@ def _assigned_to_this(p, call):
     return False
 
 
+def exact_offset(db, f):
+    """Exact (modulo 2^64) evaluation of `target - base` as a function of the index, over ALL values of the index type,
+    from the instantiated AST (implicit conversions, widths and signedness as clang inserted them).
+    Returns (pieces, index type) or raises interval.Inconclusive."""
+    from ..interval import Evaluator, trange, Inconclusive as IvI
+    from .c17 import mentions_param
+    env = {}
+    found = {}
+
+    def walk(x):
+        if isinstance(x, dict):
+            if x.get("s") == "decl":
+                for v in x["v"]:
+                    if v.get("sa") or "init" not in v:
+                        continue
+                    env[v["d"]] = v["init"]
+                    if "var" not in found and (v["t"] or {}).get("k") in ("int", "bool", "enum") and mentions_param(v["init"], f["params"][0]["d"]):
+                        found["var"], found["t"] = v["d"], v["t"]
+            if x.get("k") == "call" and (x.get("fn") or {}).get("n", "").endswith("is_in_same_sandbox") and len(x.get("args", [])) >= 2 and "tgt" not in found:
+                found["tgt"] = x["args"][1]
+            for v in x.values():
+                if isinstance(v, (dict, list)):
+                    walk(v)
+        elif isinstance(x, list):
+            for v in x:
+                walk(v)
+
+    walk(f["body"])
+    if "var" not in found or "tgt" not in found:
+        raise IvI("index variable / containment check not found")
+    env2 = {k: v for k, v in env.items() if k != found["var"]}
+    ev = Evaluator({found["var"]}, env2, ptr_zero=True)
+    pieces = ev.ev(found["tgt"], [trange(found["t"])])
+    return pieces, found["t"]
+
+
 def check_pointer_arith(rep, db, f, inst, label):
     """C05: pointer branch of operator+ / operator- / operator[]"""
     oo = f["oo"]
@@ -328,6 +364,32 @@ def check_pointer_arith(rep, db, f, inst, label):
         else:
             rep.violation("R-C05-stride", site(f), "target - base is %s; expected %s%d * index where %d is the size of '%s' under the sandbox ABI" % (
                 fmt(off)[:120], "-" if sign < 0 else "+", want_stride, want_stride, T.get("pte")), f["loc"], inst)
+        # exact check over every value of the index type (widths/signedness of every intermediate conversion)
+        try:
+            from ..interval import Inconclusive as IvI
+            pieces, it = exact_offset(db, f)
+            M = 1 << 64
+            s_ = sign * want_stride
+            bad_piece = None
+            for lo, hi, a, b in pieces:
+                if lo == hi:
+                    if (a * lo + b - s_ * lo) % M != 0:
+                        bad_piece = (lo, hi, a, b)
+                elif (a - s_) % M != 0 or b % M != 0:
+                    bad_piece = (lo, hi, a, b)
+                if bad_piece:
+                    break
+            if bad_piece:
+                lo, hi, a, b = bad_piece
+                rep.violation("R-C05-stride", site(f) + " [exact]", "for index type %s and index values in [%d, %d] the address produced is base + (%d*n + %d) mod 2^64, not base %s %d*n" % (
+                    it.get("u"), lo, hi, a, b, "-" if sign < 0 else "+", want_stride), f["loc"], inst)
+            else:
+                rep.ok("R-C05-stride", site(f) + " [exact]", "target == base %s %d*n (mod 2^64) for every value of index type %s" % ("-" if sign < 0 else "+", want_stride, it.get("u")), inst)
+        except Exception as ex:
+            if ex.__class__.__name__ == "Inconclusive":
+                rep.inconclusive("R-C05-stride", site(f) + " [exact]", str(ex), inst)
+            else:
+                raise
         # overflow of index*stride
         idx_bound = None
         atom = off[2][0][0] if off[0] == "lin" and off[2] else None
